@@ -292,7 +292,7 @@ def r3_index_builder(ctx):
                          "LINEWIDTH": "LINEWIDTH = raw end of the first sequence line - its start + 1 (terminator included)"}[role],
                got == sym.canon(sym.parse_expr(want)), got[:200], key=f"C17-R3|builder|{role}")
     got = sym.canon(args["BYTE_SIZE"])
-    ctx.ob(f.where, "chunk byte size = size of the chunk's data (all bytes delivered by this chunk)", got.startswith(f"[{D}.size]*len("), got[:120], key="C17-R3|builder|byte_size")
+    ctx.ob(f.where, "chunk byte size = size of the chunk's data (all bytes delivered by this chunk)", (got.startswith(f"[{D}.size]*len(") or got.startswith(f"repeat([{D}.size], len(")), got[:120], key="C17-R3|builder|byte_size")
     gl = sym.canon(args["LENGTH"])
     ctx.ob(f.where, "LENGTH = number of bases of the record (lengths of the joined sequence lines)", gl.endswith(".lengths") and gl.startswith("RaggedArray("), gl[:160],
            key="C17-R3|builder|LENGTH")
